@@ -3,19 +3,22 @@ open Lz4v
 open Common
 
 let () =
-  reg "specdec" (function [h; b] -> show_opt (spec_decode_fast (bytes_of_hex h) (bytes_of_hex b)) | _ -> "badargs");
-  reg "strict" (function [h; b] -> show_opt (strict_valid_fast (bytes_of_hex h) (bytes_of_hex b)) | _ -> "badargs");
+  (* specdec / strict: the map-based implementation (n log n whatever the offsets); *_list: the list-based one *)
+  reg "specdec" (function [h; b] -> show_opt (spec_decode_mem (bytes_of_hex h) (bytes_of_hex b)) | _ -> "badargs");
+  reg "strict" (function [h; b] -> show_opt (strict_valid_mem (bytes_of_hex h) (bytes_of_hex b)) | _ -> "badargs");
+  reg "specdec_list" (function [h; b] -> show_opt (spec_decode_fast (bytes_of_hex h) (bytes_of_hex b)) | _ -> "badargs");
+  reg "strict_list" (function [h; b] -> show_opt (strict_valid_fast (bytes_of_hex h) (bytes_of_hex b)) | _ -> "badargs");
   reg "specdec_ref" (function [h; b] -> show_opt (spec_decode (bytes_of_hex h) (bytes_of_hex b)) | _ -> "badargs");
   reg "strict_ref" (function [h; b] -> show_opt (strict_valid (bytes_of_hex h) (bytes_of_hex b)) | _ -> "badargs");
   reg "xxh32" (function [seed; b] -> Big_int_Z.string_of_big_int (xxh32 (Big_int_Z.big_int_of_string seed) (bytes_of_hex b)) | _ -> "badargs");
   reg "frame" (function [strict; skip; d; b] ->
-      let bdec = if strict = "1" then strict_valid_fast else spec_decode_fast in
+      let bdec = if strict = "1" then strict_valid_mem else spec_decode_mem in
       (match frame_decode bdec (skip = "1") (bytes_of_hex d) (bytes_of_hex b) with
        | None -> "none"
        | Some (c, rest) -> Printf.sprintf "ok %s rest=%d" (show_bytes c) (List.length rest))
     | _ -> "badargs");
   reg "stream" (function [strict; d; b] ->
-      let bdec = if strict = "1" then strict_valid_fast else spec_decode_fast in
+      let bdec = if strict = "1" then strict_valid_mem else spec_decode_mem in
       let bs = bytes_of_hex b in
       show_opt (stream_decode bdec false (Big_int_Z.big_int_of_int (List.length bs + 1)) (bytes_of_hex d) [] bs)
     | _ -> "badargs")
@@ -76,6 +79,20 @@ let () =
         | "dest" -> compress_destSize srcm (len src) (zs cap)
         | _ -> failwith "variant") in
       show_ares a ^ " " ^ show_ctx a.a_ctx
+    | _ -> "badargs");
+  (* destx <src> <target> <accel> : LZ4_compress_destSize_extState *)
+  reg "destx" (function [src; target; accel] ->
+      let src = bytes_of_hex src in
+      let srcm = mem_of_list (z 0) src in
+      let a = compress_destSize_internal srcm (len src) (zs target) (zs accel) in
+      show_ares a ^ " " ^ show_ctx a.a_ctx
+    | _ -> "badargs");
+  (* hcemit <src> <ip> <anchor> <op> <matchLength> <offset> <limit 0|1> <oend> : LZ4HC_encodeSequence *)
+  reg "hcemit" (function [src; ip; anchor; op; ml; off; limit; oend] ->
+      let srcl = Array.of_list (bytes_of_hex src) in
+      let rd a = let i = zi a in if i >= 0 && i < Array.length srcl then srcl.(i) else z 0 in
+      let e = encodeSequence rd (zs ip) (zs anchor) (zs op) (zs ml) (zs off) (limit = "1") (zs oend) in
+      Printf.sprintf "%s %s %s %s" (zstr e.e_ret) (zstr e.e_op) (zstr e.e_hw) (show_bytes e.e_bytes)
     | _ -> "badargs");
   reg "ctxinit" (function _ -> cur_ctx := ctx_init; "ok");
   (* fr <src> <cap> <accel> : LZ4_compress_fast_extState_fastReset on the session context *)
